@@ -95,9 +95,17 @@ def settings_of(agent) -> Optional[Dict[str, Any]]:
         if c2:
             nodes.append(str(c2))  # the configured C2 server issues the payload commands
         n_stages = {"tap-001": 6, "tap-003": 5}.get(agent.config.type, 0)
+        # kill-chain options that are switched off (read from the agent's CONFIG, i.e. what the scenario says - the agent
+        # consumes its working copy): the actions they stand for
+        pay = getattr(kc, "PAYLOAD", None)
+        forbid = []
+        if pay is not None and getattr(pay, "corrupt", None) is False:
+            forbid.append("c2-server-ransomware-launch")
+        if pay is not None and getattr(pay, "exfiltrate", None) is False:
+            forbid.append("c2-server-data-exfiltrate")
         base.update(kind="tap", start=_clip(s.start_step), startVar=_clip(s.variance), freq=_clip(s.frequency), var=_clip(s.variance),
                     nodes=nodes, nStages=n_stages, repeatChain=bool(s.repeat_kill_chain), repeatStages=bool(s.repeat_kill_chain_stages),
-                    c2=str(c2 or ""), startNodes=start_nodes)
+                    c2=str(c2 or ""), startNodes=start_nodes, forbid=forbid)
         return base
     return None
 
@@ -327,6 +335,8 @@ def tap_variant(cfg: Dict[str, Any], **kw) -> Dict[str, Any]:
                         st["probability"] = v
                 elif k == "starting_nodes":
                     a["agent_settings"]["starting_nodes"] = list(v)
+                elif k == "payload":
+                    a["agent_settings"]["kill_chain"].setdefault("PAYLOAD", {}).update(v)
                 else:
                     a["agent_settings"][k] = v
     return cfg
@@ -590,6 +600,11 @@ def main(tier: str, seed: int) -> int:
                          starting_nodes=["ST_PROJ-A-PRV-PC-1", "ST_PROJ-B-PRV-PC-2", "ST_PROJ-C-PRV-PC-3"]), "passive"),
         # the earliest start the settings schema admits
         ("tap-001", dict(start_step=0, frequency=2, variance=0), "passive"),
+        # the payload switches of TAP001 (a whole kill chain needs ~18 turns: every step is a turn)
+        ("tap-001", dict(start_step=1, frequency=1, variance=0, payload={"exfiltrate": False, "corrupt": False}, _steps=56), "passive"),
+        ("tap-001", dict(start_step=1, frequency=1, variance=0, repeat_kill_chain=True, payload={"exfiltrate": True, "corrupt": False}, _steps=90),
+         "passive"),
+        ("tap-001", dict(start_step=1, frequency=1, variance=0, payload={"exfiltrate": False, "corrupt": True}, _steps=56), "passive"),
         ("tap-003", dict(start_step=1, frequency=3, variance=1, repeat_kill_chain=True), "passive"),
     ]
     if not quick:
@@ -605,7 +620,9 @@ def main(tier: str, seed: int) -> int:
     for j, (typ, kw, blue) in enumerate(tap_vars):
         base = uc7 if typ == "tap-001" else uc7_3
         lab = "uc7_config+settings" if typ == "tap-001" else "uc7_config_tap003+settings"
-        traces += shipped_run(tap_variant(base, **kw), lab, blue, [1], seed + 51 + j, n_steps=36 if quick else 96, extra={"tap_settings": kw})
+        kw = dict(kw)
+        nst = kw.pop("_steps", None)
+        traces += shipped_run(tap_variant(base, **kw), lab, blue, [1], seed + 51 + j, n_steps=nst or (36 if quick else 96), extra={"tap_settings": kw})
     mark("shipped")
     # 4. TLC judges every trace
     res = tlc.validate("AgentsTrace", traces, chunk=150)
